@@ -161,6 +161,23 @@ def run_case(spec):
             return acts
         drain_actions = actions
     sch = Scheduler(world, Both(), strategy=rng.choice(STRATS), chunking="whole")
+    flaky = spec["seed"] % 4 == 1
+    if flaky:
+        # the mailbox connection of one or both sides is lost (and comes back) in the middle of the key exchange, possibly
+        # with several messages of that side still unacknowledged: the verdict must not depend on it
+        for _ in range(rng.randint(1, 3)):
+            sch.faults.append((rng.randint(3, 160), (lambda who=rng.choice("AB"): drv.drop(who)), "cut mailbox link"))
+        sch.faults.sort(key=lambda f: f[0])
+        # ... and once right after a side has computed the key (its version message, and whatever the application had already
+        # submitted, are on their way and not yet echoed by the server)
+        on_key = {n_: rng.random() < 0.6 for n_ in "AB"}
+
+        def hook():
+            for n_ in "AB":
+                if on_key[n_] and "key" in drv.app(n_).kinds():
+                    on_key[n_] = False
+                    drv.drop(n_)
+        sch.hook = hook
 
     def by_done():
         return by is None or (by.all_delivered() and "versions" in by.a.kinds() and "versions" in by.b.kinds())
@@ -174,7 +191,7 @@ def run_case(spec):
             return all(any(k.endswith("-err") or k == "closed" for k in app.kinds()) or "scared" in [i for (_, _, i) in app.binputs]
                        for app in (drv.a, drv.b))
         return False
-    sch.run(900, until=settled)
+    sch.run(900 if not flaky else 2500, until=lambda: settled() and not sch.faults)
     sch.drain(90.0, 5000, until=settled)
     pake_first = late_words and any(i == "got_key" for (_, _, i) in drv.b.binputs) is not None and drv.b_words
     # derive_key sampling (before close)
@@ -298,6 +315,17 @@ def run_case(spec):
         want = ("WrongPasswordError", "WrongPasswordError")
     else:
         want = ("LonelyError", "LonelyError")
+    lonely_ok = 0
+    if flaky and not expect_match and met and (va, vb) != want:
+        # connection losses are outside this property's quantifier (C09 decides what survives them).  The one thing they may
+        # change here: a side that never received anything encrypted from its peer (the peer's version message went down with
+        # the peer's connection, see the C09 finding) cannot be scared, and stays lonely
+        def heard_ciphertext(app):
+            return any(m.get("type") == "message" and m.get("phase") != "pake" and m.get("side") != app.w._boss._side for (_, m) in app.inbound)
+        adj = tuple("WrongPasswordError" if (v == "LonelyError" and not heard_ciphertext(app)) else v for v, app in ((va, drv.a), (vb, drv.b)))
+        if adj == want:
+            lonely_ok = 1
+            want = (va, vb)
     if (va, vb) != want:
         viol.append({"key": "C01/verdict/%s-%s-instead-of-%s" % (va, vb, want[0]),
                      "msg": "class %s: close verdicts %s,%s expected %s (codes %r / %r, appids %r / %r)" % (kind, va, vb, want, code_a, code_b, appid_a, appid_b),
@@ -311,7 +339,8 @@ def run_case(spec):
     return {"violations": viol, "nontrivial": nontrivial,
             "counters": {"match_cases": int(expect_match), "mismatch_cases": int(not expect_match and met),
                          "never_met_cases": int(not met), "pake_before_code": s01, "derive_checks": derive_checks, "derive_repeated_purpose": repeated[0], "derive_in_key_notification": in_callback[0], "derive_after_close": after_close_n,
-                         "class_" + kind: 1, "bystander_pairs": int(by is not None), "dilated_cases": int(dilated)},
+                         "class_" + kind: 1, "bystander_pairs": int(by is not None), "dilated_cases": int(dilated),
+                         "flaky_link_cases": int(flaky), "flaky_lonely_because_peer_version_never_arrived": lonely_ok, "mailbox_connections_lost": drv.drops_done},
             "sample": {"spec": spec, "code_a": code_a, "code_b": code_b, "appid_a": appid_a, "appid_b": appid_b,
                        "expect_match": expect_match, "b_mode": b_mode, "late_words": late_words,
                        "verdicts": [va, vb], "A": drv.a.kinds(), "B": drv.b.kinds(),
